@@ -31,6 +31,7 @@ type Program struct {
 	SolverArg     []string
 	TimeoutMS     int
 	Logic         string
+	SQLSchema     string // file with the CREATE statements of the real database (sqlsym)
 	FastTimeoutMS int // timeout of the incremental solver before the stand-alone retry
 	Trace         bool
 	MergeOff      bool
@@ -119,6 +120,9 @@ type Worker struct {
 	inMerge    int
 	eraser     map[string]map[string]bool
 	eraserSeq  int
+	sql        *sqlDB
+	sqlCache   map[string]*sqlStmt
+	sqlRows    map[*Obj]*sqlRowsState
 	cur        *frame
 }
 
@@ -455,6 +459,11 @@ func (w *Worker) RunPath(entry *ssa.Function, prefix []Decision) (res *PathResul
 	w.locks = map[string]int{}
 	w.eraser = map[string]map[string]bool{}
 	w.eraserSeq = 0
+	w.sql = nil
+	w.sqlRows = map[*Obj]*sqlRowsState{}
+	if w.sqlCache == nil {
+		w.sqlCache = map[string]*sqlStmt{}
+	}
 	w.cur = nil
 	w.hashCalls = w.hashCalls[:0]
 	w.res = &PathResult{Sites: map[string]*AssertSite{}, Covers: map[string]int{}, Funcs: map[string]int{}, KnownHit: map[string]bool{}}
